@@ -6,8 +6,8 @@
    one; they are proved equal to the model's, so the C11 theorems are
    theorems about loops whose read windows, found offsets, cursor updates
    and start-of-file stop test ARE the source's. *)
-From Coq Require Import ZArith List Bool Lia.
-From SK Require Import Model.Base Model.Seek Gen.Exprs.
+From Coq Require Import String ZArith List Bool Lia.
+From SK Require Import Model.Base Model.Seek Model.SinceSeek Gen.Exprs Gen.XSeek.
 Import ListNotations.
 Open Scope Z_scope.
 
@@ -92,5 +92,42 @@ Proof.
     destruct (_ =? 0); [reflexivity|]. apply IH.
 Qed.
 
+(* ---- LogLine (Gen/XSeek.v, translator/plugins/seek.py) --------------------
+   LogLine.date reads [logline_date_read_len] bytes through _read_line, which
+   seeks to / reads [read_line_window]: together exactly the model's
+   [logline_window] = the W bytes at the start offset of the line.  (A date
+   read clamped to the line, or read from another offset, changes the
+   generated definitions and breaks this theorem.) *)
+Theorem C11_logline_date_window_is_source : forall W c slf elf,
+  logline_window W c slf =
+  let '(off, n) := read_line_window (start_offset slf)
+                     (logline_date_read_len W (end_offset elf)
+                                            (start_offset slf)) in
+  read c off n.
+Proof. intros. reflexivity. Qed.
+
+(* LogLine.__len__ (used for the truth value of a LogLine) *)
+Theorem C11_logline_len_is_source : forall l : logline,
+  ll_len l = logline_len (end_offset (snd l)) (start_offset (fst l)).
+Proof. intros. reflexivity. Qed.
+
+(* LogLine.text reads len(self) bytes *)
+Theorem C11_logline_text_len_is_source : forall n,
+  logline_text_read_len n = n.
+Proof. intros. reflexivity. Qed.
+
+(* LogLine.__init__ / start_lf / end_lf and SearchState.__init__ / status /
+   offset: each property reads back the attribute that the constructor
+   argument of the same role was stored in (arguments not swapped) *)
+Theorem C11_logline_fields_are_source :
+  In (logline_start_lf_attr, "line_start_lf"%string) logline_init_fields /\
+  In (logline_end_lf_attr, "line_end_lf"%string) logline_init_fields /\
+  In (search_state_status_attr, "status"%string) search_state_init_fields /\
+  In (search_state_offset_attr, "offset"%string) search_state_init_fields.
+Proof. vm_compute. intuition. Qed.
+
 Print Assumptions C11_find_token_loop_is_source.
+Print Assumptions C11_logline_date_window_is_source.
+Print Assumptions C11_logline_len_is_source.
+Print Assumptions C11_logline_fields_are_source.
 Print Assumptions C11_find_token_reverse_loop_is_source.
